@@ -9,9 +9,9 @@
    of concurrent Close callers and every order relative to the other calls.
 
    fx = false: the code as found.
-   fx = true : with pending/C15-fix-onsyncfinished-after-close (registration gives up when
-               s.closing is closed) and pending/C15-fix-close-waits-for-distributor (doClose
-               waits for distributeEvents to return).
+   fx = true : with the repairs: OnSyncFinished gives up when s.closing is closed (91425bb),
+               doClose waits for distributeEvents to return (c96087d) and for
+               idleHandlerCleaner to return (pending/C15-fix-close-waits-for-cleaner).
 
    A sync is a finite number of transport steps (one block each: block hook + store write)
    fixed when it is started; theorems hold for every such number.  The per-publisher locks
@@ -44,6 +44,7 @@ Inductive pc :=
 | CWaitAsync           (* asyncWG.Wait() *)
 | CCloseIn             (* close(s.inEvents) *)
 | CWaitDist            (* fx: <-s.distDone *)
+| CWaitIC              (* fx: <-s.cleanerDone *)
 | CPeerstore           (* httpPeerstore.Close() *)
 | COnceDone            (* Once.Do returns: the Once is done *)
 (* SyncAdChain / syncEntries *)
@@ -87,7 +88,7 @@ Record st := {
   sem_cap : nat;             (* 0 = no semaphore *)
   sem_used : nat;
   ic_pc : icpc;              (* idleHandlerCleaner *)
-  stage : nat;               (* ghost: progress of doClose, 0 (not started) .. 12 (Once done) *)
+  stage : nat;               (* ghost: progress of doClose, 0 (not started) .. 13 (Once done) *)
   threads : nat -> option thread;
   next_tid : nat
 }.
@@ -213,12 +214,13 @@ Definition step_thread (fx : bool) (s : st) (t : nat) (th : thread) (choice : na
   | CWaitAsync => if none_active s async_active then go s t th CCloseIn (w_stage 9) else None
   | CCloseIn =>
     match cstep (co s) LCloseIn with
-    | Some c => if fx then go s t th CWaitDist (with_co (w_stage 10) c) else go s t th CPeerstore (with_co (w_stage 11) c)
+    | Some c => if fx then go s t th CWaitDist (with_co (w_stage 10) c) else go s t th CPeerstore (with_co (w_stage 12) c)
     | None => None
     end
-  | CWaitDist => match d_pc (co s) with DDone => go s t th CPeerstore (w_stage 11) | _ => None end
-  | CPeerstore => go s t th COnceDone (w_stage 11)
-  | COnceDone => go s t th (Fin RNil) (with_once (w_stage 12) ODone)
+  | CWaitDist => match d_pc (co s) with DDone => go s t th CWaitIC (w_stage 11) | _ => None end
+  | CWaitIC => match ic_pc s with ICEnd => go s t th CPeerstore (w_stage 12) | _ => None end
+  | CPeerstore => go s t th COnceDone (w_stage 12)
+  | COnceDone => go s t th (Fin RNil) (with_once (w_stage 13) ODone)
   (* ---- explicit sync ---- *)
   | ELock => match exp_mu s with None => go s t th ECheck (with_mu u0 (Some t)) | Some _ => None end
   | ECheck => if exp_closed s then go s t th ERefuse u0 else go s t th EAdd u0
@@ -417,6 +419,549 @@ Fixpoint seq_ok (closed : bool) (h : list (call * outcome)) : bool :=
 Definition seq_case_ok (h : list (call * outcome)) : bool := seq_ok false h.
 
 (* ------------------------------------------------------------------ *)
+(* Trace acceptor: replays an observed run on the transition system (stepf true).
+
+   The harness records, in real-time order, every passage of a verif yield point together
+   with the goroutine that made it, and the start / return of every API call.  A yield point
+   lies between two operations of the code, so for every model step we say which points the
+   goroutine passes BEFORE the step's operation (pre) and which it passes AFTER it and before
+   its next operation (post).  Replay: an observed passage must be the next owed post point
+   or the next pre point of the actor's pending step; if the actor has neither, it takes
+   model steps (each must be enabled in the model) until the passage is explained.  An
+   operation is thus replayed no earlier than the model needs it; when a step is not enabled,
+   other actors whose next step needs no further passage are advanced first (operations
+   that really happened but have not been observed yet), and if that does not help the
+   trace is rejected.  The trace is accepted iff every entry is explained and the final
+   observables (call results, blocks fetched, notifications forwarded, everything ended)
+   are those of the model. *)
+
+Inductive yp :=
+| YCloseClosing | YCloseExpBlocked | YCloseExpWaited | YCloseRecvClosed | YCloseAsyncWaited | YCloseInClosed
+| YListenAdding | YListenCancelling | YSyncStopRead | YSyncHandled | YDistForward | YDistAdded | YDistRemoved
+| YWatchNext | YWatchSwapped | YAsyncStart | YAsyncLocked | YAsyncSem | YAsyncTaken | YLatestRead | YAsyncHandled
+| YLatestSet | YEventSent | YHandleLocked | YHandleUnlocking.
+
+Definition yp_code (p : yp) : nat :=
+  match p with
+  | YCloseClosing => 0 | YCloseExpBlocked => 1 | YCloseExpWaited => 2 | YCloseRecvClosed => 3 | YCloseAsyncWaited => 4
+  | YCloseInClosed => 5 | YListenAdding => 6 | YListenCancelling => 7 | YSyncStopRead => 8 | YSyncHandled => 9
+  | YDistForward => 10 | YDistAdded => 11 | YDistRemoved => 12 | YWatchNext => 13 | YWatchSwapped => 14
+  | YAsyncStart => 15 | YAsyncLocked => 16 | YAsyncSem => 17 | YAsyncTaken => 18 | YLatestRead => 19
+  | YAsyncHandled => 20 | YLatestSet => 21 | YEventSent => 22 | YHandleLocked => 23 | YHandleUnlocking => 24
+  end.
+Definition yp_eqb (a b : yp) : bool := Nat.eqb (yp_code a) (yp_code b).
+
+Inductive actor := AThread (key : nat) | AWatch | ADist | AReg (key : nat).
+Definition actor_eqb (a b : actor) : bool :=
+  match a, b with
+  | AThread x, AThread y | AReg x, AReg y => Nat.eqb x y
+  | AWatch, AWatch | ADist, ADist => true
+  | _, _ => false
+  end.
+
+Inductive obs :=
+| OCall (key : nat) (k : kind) (admitted : bool) (fails : option nat)
+      (* an API call starts; admitted: a sync that got through the gate; fails = Some b: its transport fails after b blocks *)
+| OGo (key : nat) (aborted : bool) (fails : option nat)
+      (* a goroutine started by watch is first seen; aborted: it returns at its ctx.Err() check *)
+| OAt (a : actor) (p : yp)
+| ORet (key : nat) (r : result)
+| OListen (key : nat)
+| OListenRet (key : nat) (closed : bool)
+| OCancel (key : nat)
+| OCancelRet (key : nat).
+
+(* points passed before the operation of the step at this program point *)
+Definition pre_thread (s : st) (th : thread) : list yp :=
+  match t_pc th with
+  | CLock => [YCloseClosing]
+  | CWaitExp => [YCloseExpBlocked]
+  | CRecvClose => [YCloseExpWaited]
+  | CWaitAsync => if has_recv s then [YCloseRecvClosed] else [YCloseExpWaited; YCloseRecvClosed]
+  | CCloseIn => [YCloseAsyncWaited]
+  | CWaitDist => [YCloseInClosed]
+  | EBody (S _) => if Nat.eqb (t_blocks th) 0 then [YSyncStopRead; YHandleLocked] else []
+  | ESend => [YLatestSet]
+  | ASem => [YAsyncStart; YAsyncLocked]
+  | ACtx => [YAsyncSem]
+  | ABody (S _) => if Nat.eqb (t_blocks th) 0 then [YAsyncTaken; YLatestRead; YHandleLocked] else []
+  | ASend => [YLatestSet]
+  | _ => []
+  end.
+
+(* points passed after the operation of this step *)
+Definition post_thread (th : thread) (choice : nat) : list yp :=
+  match t_pc th with
+  | EBody (S n) => match choice with
+                   | O => match n with O => [YHandleUnlocking; YSyncHandled] | _ => [] end
+                   | _ => [YHandleUnlocking]
+                   end
+  | ABody (S n) => match choice with
+                   | O => match n with O => [YHandleUnlocking; YAsyncHandled] | _ => [] end
+                   | _ => [YHandleUnlocking; YAsyncHandled]
+                   end
+  | ESend | ASend => [YEventSent]
+  | _ => []
+  end.
+
+Definition pre_watch (s : st) : list yp := match w_pc s with WGot _ => [YWatchNext; YWatchSwapped] | _ => [] end.
+
+Record rs := {
+  ms : st;
+  pre_left : list (actor * list yp);   (* pre points of the actor's pending step not yet observed *)
+  owed : list (actor * list yp);       (* post points not yet observed *)
+  amap : list (nat * nat);             (* key -> thread id *)
+  fresh_async : list nat;              (* thread ids of goroutines started by watch, not yet seen *)
+  aborts : list nat;                   (* keys of goroutines that return at their ctx check *)
+  failsat : list (nat * nat);          (* key -> number of blocks after which the sync fails *)
+  lmap : list (nat * nat);             (* listener key -> listener id *)
+  reg_pending : list nat;              (* OnSyncFinished calls whose registration is not done *)
+  can_pending : list nat               (* cancel calls whose removal is not done *)
+}.
+
+Fixpoint alookup {A} (a : actor) (l : list (actor * A)) : option A :=
+  match l with [] => None | (b, v) :: r => if actor_eqb a b then Some v else alookup a r end.
+Fixpoint aset {A} (a : actor) (v : A) (l : list (actor * A)) : list (actor * A) :=
+  match l with
+  | [] => [(a, v)]
+  | (b, w) :: r => if actor_eqb a b then (a, v) :: r else (b, w) :: aset a v r
+  end.
+Fixpoint nlookup (k : nat) (l : list (nat * nat)) : option nat :=
+  match l with [] => None | (x, v) :: r => if Nat.eqb k x then Some v else nlookup k r end.
+Fixpoint rlookup (t : nat) (l : list (nat * nat)) : option nat :=   (* thread id -> key *)
+  match l with [] => None | (x, v) :: r => if Nat.eqb t v then Some x else rlookup t r end.
+Definition nmem (k : nat) (l : list nat) : bool := existsb (Nat.eqb k) l.
+Fixpoint nremove (k : nat) (l : list nat) : list nat :=
+  match l with [] => [] | x :: r => if Nat.eqb k x then r else x :: nremove k r end.
+
+Definition lst_of {A} (o : option (list A)) : list A := match o with Some l => l | None => [] end.
+Definition idle (r : rs) (a : actor) : bool :=
+  match lst_of (alookup a (pre_left r)), lst_of (alookup a (owed r)) with [], [] => true | _, _ => false end.
+
+Definition with_ms (r : rs) (s : st) : rs :=
+  {| ms := s; pre_left := pre_left r; owed := owed r; amap := amap r; fresh_async := fresh_async r;
+     aborts := aborts r; failsat := failsat r; lmap := lmap r; reg_pending := reg_pending r; can_pending := can_pending r |}.
+Definition with_pre (r : rs) (a : actor) (l : list yp) : rs :=
+  {| ms := ms r; pre_left := aset a l (pre_left r); owed := owed r; amap := amap r; fresh_async := fresh_async r;
+     aborts := aborts r; failsat := failsat r; lmap := lmap r; reg_pending := reg_pending r; can_pending := can_pending r |}.
+Definition with_owed (r : rs) (a : actor) (l : list yp) : rs :=
+  {| ms := ms r; pre_left := pre_left r; owed := aset a l (owed r); amap := amap r; fresh_async := fresh_async r;
+     aborts := aborts r; failsat := failsat r; lmap := lmap r; reg_pending := reg_pending r; can_pending := can_pending r |}.
+
+Definition fxr : bool := true.   (* the acceptor replays the repaired code *)
+
+(* one model step of thread t (its actor must be idle); registers post / next pre *)
+Definition thread_step (r : rs) (key t : nat) (c : nat) : option rs :=
+  match threads (ms r) t with
+  | Some th =>
+    match stepf fxr (ms r) (Step t c) with
+    | Some s' =>
+      let r1 := with_owed (with_ms r s') (AThread key) (post_thread th c) in
+      let pre' := match threads s' t with Some th' => pre_thread s' th' | None => [] end in
+      Some (with_pre r1 (AThread key) pre')
+    | None => None
+    end
+  | None => None
+  end.
+
+Definition watch_step (r : rs) (c : nat) : option rs :=
+  match stepf fxr (ms r) (Watcher c) with
+  | Some s' =>
+    let r1 := with_pre (with_ms r s') AWatch (pre_watch s') in
+    (* the spawn step creates a thread nobody has seen yet *)
+    match w_pc (ms r) with
+    | WGot _ => Some {| ms := ms r1; pre_left := pre_left r1; owed := owed r1; amap := amap r1;
+                        fresh_async := fresh_async r1 ++ [next_tid (ms r)]; aborts := aborts r1; failsat := failsat r1; lmap := lmap r1;
+                        reg_pending := reg_pending r1; can_pending := can_pending r1 |}
+    | _ => Some r1
+    end
+  | None => None
+  end.
+
+Definition dist_step (r : rs) : option rs :=
+  match stepf fxr (ms r) (Core LDist) with
+  | Some s' =>
+    let post := match d_pc (co (ms r)) with DSelect => match in_ev (co (ms r)) with Some _ => [YDistForward] | None => [] end | _ => [] end in
+    Some (with_owed (with_ms r s') ADist post)
+  | None => None
+  end.
+
+Definition cleaner_exit (r : rs) : option rs :=
+  match stepf fxr (ms r) (Cleaner 1) with Some s' => Some (with_ms r s') | None => None end.
+
+Definition set_fail (r : rs) (key : nat) (f : option nat) : rs :=
+  match f with
+  | Some b => {| ms := ms r; pre_left := pre_left r; owed := owed r; amap := amap r; fresh_async := fresh_async r;
+                 aborts := aborts r; failsat := (key, b) :: failsat r; lmap := lmap r;
+                 reg_pending := reg_pending r; can_pending := can_pending r |}
+  | None => r
+  end.
+
+(* the choices of a thread, in the order to try them; at a block step the plan decides *)
+Definition choices (r : rs) (key : nat) (th : thread) : list nat :=
+  match t_pc th with
+  | EBody (S _) | ABody (S _) =>
+    match nlookup key (failsat r) with
+    | Some b => if Nat.eqb b (t_blocks th) then [1] else [0]
+    | None => [0]
+    end
+  | _ => [0; 1]
+  end.
+
+Fixpoint first_step (r : rs) (key t : nat) (cs : list nat) : option rs :=
+  match cs with
+  | [] => None
+  | c :: rest => match thread_step r key t c with Some r' => Some r' | None => first_step r key t rest end
+  end.
+Definition any_step (r : rs) (key t : nat) : option rs :=
+  match threads (ms r) t with Some th => first_step r key t (choices r key th) | None => None end.
+
+(* may this thread be moved when it is not its own observation that asks for it? *)
+Definition catchup_ok (r : rs) (key : nat) (th : thread) : bool :=
+  match t_pc th with
+  | COnce => match once (ms r) with ONot => false | _ => true end     (* who wins the Once is observed *)
+  | ACtx => if nmem key (aborts r) then ctx_cancelled (ms r) else true
+  | Fin _ => false
+  | _ => true
+  end.
+
+(* advance every idle actor other than `me` by the steps it can take (choice 0, then 1) *)
+Fixpoint catchup_threads (r : rs) (me : actor) (ts : list nat) : rs * bool :=
+  match ts with
+  | [] => (r, false)
+  | t :: rest =>
+    let '(r1, moved1) :=
+      match rlookup t (amap r), threads (ms r) t with
+      | Some key, Some th =>
+        if actor_eqb me (AThread key) || negb (idle r (AThread key)) || negb (catchup_ok r key th) then (r, false)
+        else match any_step r key t with
+             | Some r' => (r', true)
+             | None => (r, false)
+             end
+      | _, _ => (r, false)
+      end in
+    let '(r2, moved2) := catchup_threads r1 me rest in
+    (r2, moved1 || moved2)
+  end.
+
+Definition catchup_round (r : rs) (me : actor) : rs * bool :=
+  let '(r1, m1) :=
+    if actor_eqb me AWatch || negb (idle r AWatch) then (r, false)
+    else match watch_step r 0 with
+         | Some r' => (r', true)
+         | None => match watch_step r 1 with Some r' => (r', true) | None => (r, false) end
+         end in
+  let '(r2, m2) :=
+    if actor_eqb me ADist || negb (idle r1 ADist) then (r1, false)
+    else match dist_step r1 with Some r' => (r', true) | None => (r1, false) end in
+  let '(r3, m3) := match cleaner_exit r2 with Some r' => (r', true) | None => (r2, false) end in
+  let '(r4, m4) := catchup_threads r3 me (seq 0 (next_tid (ms r3))) in
+  (r4, m1 || m2 || m3 || m4).
+
+Fixpoint catchup (fuel : nat) (r : rs) (me : actor) : rs :=
+  match fuel with
+  | O => r
+  | S f => let '(r', moved) := catchup_round r me in if moved then catchup f r' me else r'
+  end.
+
+Definition starts_with (p : yp) (l : list yp) : bool := match l with q :: _ => yp_eqb p q | [] => false end.
+
+(* what thread t would show next if it took choice c now: post points, then the pre points of its next step *)
+Definition next_points (r : rs) (key t c : nat) : option (list yp) :=
+  match thread_step r key t c with
+  | Some r' => Some (lst_of (alookup (AThread key) (owed r')) ++ lst_of (alookup (AThread key) (pre_left r')))
+  | None => None
+  end.
+
+(* consume passage p of actor a from what it owes *)
+Definition consume (r : rs) (a : actor) (p : yp) : option rs :=
+  match lst_of (alookup a (owed r)) with
+  | q :: rest => if yp_eqb p q then Some (with_owed r a rest) else None
+  | [] =>
+    match lst_of (alookup a (pre_left r)) with
+    | q :: rest => if yp_eqb p q then Some (with_pre r a rest) else None
+    | [] => None
+    end
+  end.
+
+(* explain passage p of thread (key, t): take steps until it can be consumed *)
+Fixpoint explain_thread (fuel : nat) (r : rs) (key t : nat) (p : yp) : option rs :=
+  match fuel with
+  | O => None
+  | S f =>
+    if negb (idle r (AThread key)) then consume r (AThread key) p
+    else
+      match any_step r key t with
+      | Some r' => explain_thread f r' key t p
+      | None =>
+        (* not enabled: let the others do what they must have done already *)
+        let r' := catchup 40 r (AThread key) in
+        match any_step r' key t with
+        | None => None
+        | Some _ => explain_thread f r' key t p
+        end
+      end
+  end.
+
+Fixpoint explain_watch (fuel : nat) (r : rs) (p : yp) : option rs :=
+  match fuel with
+  | O => None
+  | S f =>
+    if negb (idle r AWatch) then consume r AWatch p
+    else match watch_step r 0 with
+         | Some r' => explain_watch f r' p
+         | None =>
+           let r' := catchup 40 r AWatch in
+           match watch_step r' 0 with Some r'' => explain_watch f r'' p | None => None end
+         end
+  end.
+
+(* the distributor back in its select *)
+Fixpoint dist_to_select (fuel : nat) (r : rs) : option rs :=
+  match fuel with
+  | O => None
+  | S f =>
+    match d_pc (co (ms r)) with
+    | DSelect => Some r
+    | DDone => None
+    | _ => if idle r ADist then match dist_step r with Some r' => dist_to_select f r' | None => None end else None
+    end
+  end.
+
+Definition core_do (r : rs) (lb : clabel) : option rs :=
+  match stepf fxr (ms r) (Core lb) with Some s' => Some (with_ms r s') | None => None end.
+
+Definition first_opt (l : list nat) : option nat := match l with x :: _ => Some x | [] => None end.
+
+Fixpoint explain_dist (fuel : nat) (r : rs) (p : yp) : option rs :=
+  match fuel with
+  | O => None
+  | S f =>
+    if negb (idle r ADist) then consume r ADist p
+    else match p with
+         | YDistAdded =>
+           (* the rendez-vous of the oldest registration whose listen:adding has been seen *)
+           match first_opt (filter (fun k => idle r (AReg k)) (reg_pending r)), dist_to_select 60 r with
+           | Some k, Some r1 =>
+             match nlookup k (lmap r1) with
+             | Some l => match core_do r1 (LAdd l) with
+                         | Some r2 => Some {| ms := ms r2; pre_left := pre_left r2; owed := owed r2; amap := amap r2;
+                                              fresh_async := fresh_async r2; aborts := aborts r2; failsat := failsat r2; lmap := lmap r2;
+                                              reg_pending := nremove k (reg_pending r2); can_pending := can_pending r2 |}
+                         | None => None
+                         end
+             | None => None
+             end
+           | _, _ => None
+           end
+         | YDistRemoved =>
+           match first_opt (filter (fun k => idle r (AReg k)) (can_pending r)), dist_to_select 60 r with
+           | Some k, Some r1 =>
+             match nlookup k (lmap r1) with
+             | Some l => match core_do r1 (LRm l) with
+                         | Some r2 => Some {| ms := ms r2; pre_left := pre_left r2; owed := owed r2; amap := amap r2;
+                                              fresh_async := fresh_async r2; aborts := aborts r2; failsat := failsat r2; lmap := lmap r2;
+                                              reg_pending := reg_pending r2; can_pending := nremove k (can_pending r2) |}
+                         | None => None
+                         end
+             | None => None
+             end
+           | _, _ => None
+           end
+         | _ =>
+           match dist_step r with
+           | Some r' => explain_dist f r' p
+           | None =>
+             let r' := catchup 40 r ADist in
+             match dist_step r' with Some r'' => explain_dist f r'' p | None => None end
+           end
+         end
+  end.
+
+(* run thread t to its end; every point it would pass must have been observed *)
+Fixpoint finish_thread (fuel : nat) (r : rs) (key t : nat) : option (rs * result) :=
+  match fuel with
+  | O => None
+  | S f =>
+    match threads (ms r) t with
+    | Some th =>
+      match t_pc th with
+      | Fin res => if idle r (AThread key) then Some (r, res) else None
+      | _ =>
+        if negb (idle r (AThread key)) then None
+        else match any_step r key t with
+             | Some r' => finish_thread f r' key t
+             | None =>
+               let r' := catchup 40 r (AThread key) in
+               match any_step r' key t with
+               | None => None
+               | Some _ => finish_thread f r' key t
+               end
+             end
+      end
+    | None => None
+    end
+  end.
+
+Definition result_eqb (a b : result) : bool :=
+  match a, b with
+  | RNil, RNil | ROk, ROk | RFail, RFail | RShutdown, RShutdown | RErrClosed, RErrClosed => true
+  | _, _ => false
+  end.
+
+Fixpoint run_steps (r : rs) (key t : nat) (n : nat) : option rs :=
+  match n with
+  | O => Some r
+  | S k => match thread_step r key t 0 with Some r' => run_steps r' key t k | None => None end
+  end.
+
+Definition set_maps (r : rs) am fa ab lm rp cp : rs :=
+  {| ms := ms r; pre_left := pre_left r; owed := owed r; amap := am; fresh_async := fa; aborts := ab; failsat := failsat r; lmap := lm;
+     reg_pending := rp; can_pending := cp |}.
+
+Definition replay_one (r : rs) (o : obs) : option rs :=
+  match o with
+  | OCall key k admitted fails =>
+    let t := next_tid (ms r) in
+    match stepf fxr (ms r) (Spawn k) with
+    | Some s' =>
+      let r1 := set_fail (set_maps (with_ms r s') ((key, t) :: amap r) (fresh_async r) (aborts r) (lmap r) (reg_pending r) (can_pending r)) key fails in
+      if admitted then run_steps r1 key t 4      (* Lock, check, Add, Unlock: before anything else is observed *)
+      else Some r1
+    | None => None
+    end
+  | OGo key aborted fails =>
+    (* the oldest goroutine watch has started and nobody has seen yet *)
+    let r0 := match fresh_async r with [] => catchup 40 r (AThread key) | _ => r end in
+    match fresh_async r0 with
+    | t :: rest =>
+      let pre := match threads (ms r0) t with Some th => pre_thread (ms r0) th | None => [] end in
+      Some (with_pre (set_fail (set_maps r0 ((key, t) :: amap r0) rest (if aborted then key :: aborts r0 else aborts r0)
+                               (lmap r0) (reg_pending r0) (can_pending r0)) key fails) (AThread key) pre)
+    | [] => None
+    end
+  | OAt (AThread key) p =>
+    match nlookup key (amap r) with
+    | Some t =>
+      match explain_thread 40 r key t p with
+      | Some r' =>
+        (* a goroutine that is not going to stop at its ctx check makes that check now *)
+        match p, threads (ms r') t with
+        | YAsyncSem, Some th =>
+          if negb (nmem key (aborts r')) && idle r' (AThread key)
+          then match t_pc th with ACtx => thread_step r' key t 0 | _ => Some r' end
+          else Some r'
+        | _, _ => Some r'
+        end
+      | None => None
+      end
+    | None => None
+    end
+  | OAt AWatch p => explain_watch 20 r p
+  | OAt ADist p => explain_dist 80 r p
+  | OAt (AReg key) p => consume r (AReg key) p
+  | ORet key res =>
+    match nlookup key (amap r) with
+    | Some t => match finish_thread 60 r key t with
+                | Some (r', res') => if result_eqb res res' then Some r' else None
+                | None => None
+                end
+    | None => None
+    end
+  | OListen key =>
+    let l := next_lid (co (ms r)) in
+    match core_do r LNew with
+    | Some r1 => Some (with_pre (set_maps r1 (amap r1) (fresh_async r1) (aborts r1) ((key, l) :: lmap r1)
+                                          (reg_pending r1 ++ [key]) (can_pending r1)) (AReg key) [YListenAdding])
+    | None => None
+    end
+  | OListenRet key closed =>
+    if negb (idle r (AReg key)) then None else
+    if nmem key (reg_pending r) then
+      match nlookup key (lmap r) with
+      | Some l =>
+        let r0 := set_maps r (amap r) (fresh_async r) (aborts r) (lmap r) (nremove key (reg_pending r)) (can_pending r) in
+        if closed then core_do r0 (LAddClosed l)
+        else match dist_to_select 60 (catchup 40 r0 (AReg key)) with
+             | Some r1 => match core_do r1 (LAdd l) with
+                          | Some r2 => Some (with_owed r2 ADist (lst_of (alookup ADist (owed r2)) ++ [YDistAdded]))
+                          | None => None
+                          end
+             | None => None
+             end
+      | None => None
+      end
+    else Some r
+  | OCancel key =>
+    Some (with_pre (set_maps r (amap r) (fresh_async r) (aborts r) (lmap r) (reg_pending r) (can_pending r ++ [key]))
+                   (AReg key) [YListenCancelling])
+  | OCancelRet key =>
+    if negb (idle r (AReg key)) then None else
+    if nmem key (can_pending r) then
+      match nlookup key (lmap r) with
+      | Some l =>
+        let r0 := set_maps r (amap r) (fresh_async r) (aborts r) (lmap r) (reg_pending r) (nremove key (can_pending r)) in
+        if closing (co (ms r0)) then Some r0       (* the <-s.closing case of the select *)
+        else match dist_to_select 60 (catchup 40 r0 (AReg key)) with
+             | Some r1 => match core_do r1 (LRm l) with
+                          | Some r2 => Some (with_owed r2 ADist (lst_of (alookup ADist (owed r2)) ++ [YDistRemoved]))
+                          | None => None
+                          end
+             | None => None
+             end
+      | None => None
+      end
+    else Some r
+  end.
+
+(* replay; on failure the index of the entry that could not be explained *)
+Fixpoint replay (r : rs) (tr : list obs) (i : nat) : rs * option nat :=
+  match tr with
+  | [] => (r, None)
+  | o :: rest => match replay_one r o with Some r' => replay r' rest (S i) | None => (r, Some i) end
+  end.
+
+Definition rs_init (recv : bool) (cap : nat) : rs :=
+  {| ms := init recv cap; pre_left := []; owed := []; amap := []; fresh_async := []; aborts := []; failsat := [];
+     lmap := []; reg_pending := []; can_pending := [] |}.
+
+Record tcase := {
+  c_recv : bool; c_cap : nat;
+  c_trace : list obs;
+  c_hooks : nat;          (* block-hook calls observed *)
+  c_forwards : nat;       (* notifications the distributor took from inEvents *)
+  c_closed : bool         (* a Close call returned *)
+}.
+
+Definition all_ended (s : st) : bool :=
+  forallb (fun t => match threads s t with Some th => match t_pc th with Fin _ => true | _ => false end | None => true end)
+          (seq 0 (next_tid s)).
+Definition blocks_fetched (s : st) : nat :=
+  fold_right (fun t acc => match threads s t with Some th => t_blocks th + acc | None => acc end) 0 (seq 0 (next_tid s)).
+Definition all_idle (r : rs) : bool :=
+  forallb (fun x => match snd x with [] => true | _ => false end) (owed r).
+
+(* 0 = accepted; 1000+i = entry i not explained; other codes = which final observable differs *)
+Definition trace_verdict (c : tcase) : nat :=
+  let '(r, bad) := replay (rs_init (c_recv c) (c_cap c)) (c_trace c) 0 in
+  match bad with
+  | Some i => 1000 + i
+  | None =>
+    let r' := catchup 60 r (AReg 4999) in        (* what is left runs by itself *)
+    let r'' := match dist_to_select 60 r' with Some x => x | None => r' end in
+    let s := ms r'' in
+    if negb (all_ended s) then 1
+    else if negb (all_idle r'') then 2
+    else if negb (Nat.eqb (blocks_fetched s) (c_hooks c)) then 3
+    else if negb (Nat.eqb (List.length (fwd (co s))) (c_forwards c)) then 4
+    else if negb (Bool.eqb (close_returned s) (c_closed c)) then 5
+    else if c_closed c && negb (match d_pc (co s), ic_pc s with DDone, ICEnd => true | _, _ => false end) then 6
+    else 0
+  end.
+
+Definition trace_case_ok (c : tcase) : bool := Nat.eqb (trace_verdict c) 0.
+
+(* ------------------------------------------------------------------ *)
 (* The skeletons this model (fx = true) was written against            *)
 Open Scope string_scope.
 
@@ -431,11 +976,13 @@ Definition expected_doClose : skel :=
    SWgWait "s.asyncWG"; SCall "verifYield";
    SClose "s.inEvents"; SCall "verifYield";
    SRecv "s.distDone";
+   SRecv "s.cleanerDone";
    SCall "Close";
    SReturn].
 
 Definition expected_idleHandlerCleaner : skel :=
-  [SFor [SSelect false [[SRecv "t.C"; SLock "s.handlersMutex"; SUnlock "s.handlersMutex"];
+  [SDefer [SClose "s.cleanerDone"];
+   SFor [SSelect false [[SRecv "t.C"; SLock "s.handlersMutex"; SUnlock "s.handlersMutex"];
                         [SRecv "s.closing"; SReturn]]]].
 
 Definition expected_Announce : skel := [SIf "" [SReturn] []; SReturn].
